@@ -160,6 +160,40 @@ def shard_types(arg) -> E.Tally:
     return t
 
 
+def shard_words(arg) -> E.Tally:
+    """Sub-check 1b: every payload in the <= k-deviation language of every verb/code regex (the quantifier's 'all payloads
+    matching the per-code regex of every known verb/code'), under each address shape the verb is used with: decoded or
+    rejected with the library's own invalid-packet error - nothing else."""
+    i, n, quick = arg
+    from checks.c05_payloads import ADDRS, SPECIAL
+    from mc import rxlang
+    from ramses_tx.ramses import CODES_SCHEMA
+    import re as _re
+
+    logcap.install()
+    t = E.Tally()
+    j = 0
+    for code, d in sorted(CODES_SCHEMA.items()):
+        for verb, rx in sorted(d.items()):
+            if verb not in ADDRS:
+                continue
+            j += 1
+            if j % n != i:
+                continue
+            special = [w for w in SPECIAL.get(code, ()) if _re.match(rx, w)]
+            for w in itertools.chain(rxlang.words(rx, k=1 if quick else 2), special):
+                for a in ADDRS[verb][: 2 if quick else None]:
+                    line = f"045 {verb} --- {a} {code} {len(w) // 2:03d} {w}"
+                    t.n += 1
+                    dec, viols = classify(line)
+                    for key, what in viols:
+                        t.bad(key, what, {"line": line})
+                    if dec:
+                        t.nontrivial += 1
+    t.by["regex_words"] = t.n
+    return t
+
+
 # ---------------------------------------------------------------------------------------------
 VALID = [
     " I --- 01:145038 --:------ 01:145038 1F09 003 FF0532",
@@ -331,6 +365,7 @@ def run(ctx) -> None:
     q = ctx.quick
     n = 32
     jobs = [("shard_types", (i, n, q, not q)) for i in range(n)]
+    jobs += [("shard_words", (i, 16, q)) for i in range(16)]
     jobs += [("shard_stream", (i, 8, q)) for i in range(8)]
     jobs += [("shard_cuts", (i, 16, 2 if q else 3)) for i in range(16)]
     total = E.pmap(_dispatch, jobs, ctx.seed)
@@ -339,7 +374,7 @@ def run(ctx) -> None:
         total,
         rule="(1) every single edit (substitute each of '078FG-: #*<', delete, insert '0F ' at every position; length/payload/address/code/verb field "
         "edits) of one line per distinct (verb, code, length, address shape, device types) signature of the repo's logs, through Packet.from_file/"
-        "from_port/from_dict + Message, and in batches through the real FileTransport+ReadProtocol; (2) each of 26 bad-line classes x every position "
+        "from_port/from_dict + Message, and in batches through the real FileTransport+ReadProtocol; (1b) every word within 1 (thorough 2) class-position deviations of every structural variant of every verb/code payload regex, under the address shapes of that verb; (2) each of 26 bad-line classes x every position "
         "in a 7-line stream (incl. sync cycles of two controllers) x {dict, log, serial one-read, serial line-per-read, MQTT message} + MQTT envelopes with undatable / zone-less / fraction-less timestamps at every position; every 4th base's single-edit candidates also through MqttTransport._on_message; (3) every partition of a 236-byte serial stream into reads with "
         "<= 2 (thorough 3) cuts, all-1-byte reads, an empty read at every position. non-trivial = candidates that still decode / streams / partitions",
         exhaustive=True,
